@@ -39,6 +39,59 @@ def closure_step(facts, name):
     return None
 
 
+def _deref(t):
+    while isinstance(t, tuple) and t and t[0] in ('ref', 'der', 'K'):
+        t = t[1]
+    return t
+
+
+def map_updates(facts, o):
+    """Normalised updates of a HashMap on one path: list of dicts {map, key, present: delta|None, absent: inserted value|None, cond}.
+
+    Idioms recognised: entry(k).and_modify(|c| *c += d)[.or_insert(v)];  if let Some(c) = get_mut(&k) { *c += d };
+    *entry(k).or_insert(v) += d."""
+    ups = []
+    evs = o.events
+    for e in evs:
+        if e[0] != 'call':
+            continue
+        if e[1].endswith('::and_modify') and e[2][1][0] == 'agg' and e[2][1][1] == 'closure':
+            ent = e[2][0]
+            if ent[0] == 'call' and ent[1].endswith('::entry'):
+                me = ('call', e[1], e[2], e[3])
+                ins = [x for x in evs if x[0] == 'call' and x[1].endswith('::or_insert') and x[2][0] == me]
+                ups.append({'map': _deref(ent[2][0]), 'key': _deref(ent[2][1]), 'present': closure_step(facts, e[2][1][2]),
+                            'absent': ins[0][2][1] if ins else None, 'closure': e[2][1][2]})
+        if e[1].endswith('HashMap::<K, V, S, A>::get_mut'):
+            me = ('call', e[1], e[2], e[3])
+            slot = ('der', ('fld', me, 'Some.0'))
+            hit = dict((a, v) for a, v in o.conds).get(('discr', me))
+            wr = [x for x in evs if x[0] == 'write' and _deref(x[1]) == ('fld', me, 'Some.0')]
+            delta = None
+            for x in wr:
+                v = x[2]
+                if v[0] == 'bin' and v[1] in ('Add', 'Sub') and v[3] == C(1) and _deref(v[2]) == ('fld', me, 'Some.0'):
+                    delta = 1 if v[1] == 'Add' else -1
+            if hit == 1 or wr:
+                ups.append({'map': _deref(e[2][0]), 'key': _deref(e[2][1]), 'present': delta, 'absent': None, 'closure': None})
+            else:
+                ups.append({'map': _deref(e[2][0]), 'key': _deref(e[2][1]), 'present': 'not-taken', 'absent': None, 'closure': None})
+        if e[1].endswith('::or_insert') and e[2][0][0] == 'call' and e[2][0][1].endswith('::entry'):
+            me = ('call', e[1], e[2], e[3])
+            ent = e[2][0]
+            wr = [x for x in evs if x[0] == 'write' and _deref(x[1]) == me]
+            for x in wr:
+                v = x[2]
+                if v[0] == 'bin' and v[1] in ('Add', 'Sub') and v[3] == C(1) and _deref(v[2]) == me:
+                    d = 1 if v[1] == 'Add' else -1
+                    try:
+                        ab = C(e[2][1][1] + d) if is_const(e[2][1]) else None
+                    except Exception:
+                        ab = None
+                    ups.append({'map': _deref(ent[2][0]), 'key': _deref(ent[2][1]), 'present': d, 'absent': ab, 'closure': None})
+    return ups
+
+
 def r1_inverse(ctx):
     rule = 'C17.R1-inverse-pair'
     facts = ctx.facts
@@ -51,28 +104,35 @@ def r1_inverse(ctx):
         if not rets:
             ctx.anchor_missing(rule, name, 'no return path')
             return
-        o = rets[0]
-        entry = [e for e in o.events if e[0] == 'call' and e[1].endswith('HashMap::<K, V, S, A>::entry')]
-        mod = [e for e in o.events if e[0] == 'call' and e[1].endswith('::and_modify')]
-        ins = [e for e in o.events if e[0] == 'call' and e[1].endswith('::or_insert')]
-        push = [e for e in o.events if e[0] == 'call' and e[1].endswith('Vec::<T, A>::push')]
-        pop = [e for e in o.events if e[0] == 'call' and e[1].endswith('Vec::<T, A>::pop')]
-        step = None
-        if mod and mod[0][2][1][0] == 'agg' and mod[0][2][1][1] == 'closure':
-            step = closure_step(facts, mod[0][2][1][2])
-            ctx.touch(mod[0][2][1][2])
-        info[m] = dict(key=entry[0][2][1] if entry else None, map=entry[0][2][0] if entry else None, step=step,
-                       insert=ins[0][2][1] if ins else None, pushes=len(push), pops=len(pop), n_paths=len(rets),
-                       stack=[show(e[2][0]) for e in push + pop])
+        per_path = []
+        for o in rets:
+            ups = map_updates(facts, o)
+            for u_ in ups:
+                if u_.get('closure'):
+                    ctx.touch(u_['closure'])
+            push = [e for e in o.events if e[0] == 'call' and e[1].endswith('Vec::<T, A>::push')]
+            pop = [e for e in o.events if e[0] == 'call' and e[1].endswith('Vec::<T, A>::pop')]
+            per_path.append(dict(updates=ups, pushes=len(push), pops=len(pop), stack=sorted({show(_deref(e[2][0])) for e in push + pop})))
+        info[m] = per_path
+    hkey = _deref(HASHF)
+
+    def summary(paths):
+        return [{'updates': [{k: (show(v) if isinstance(v, tuple) else v) for k, v in u_.items() if k != 'closure'} for u_ in p_['updates']],
+                 'pushes': p_['pushes'], 'pops': p_['pops']} for p_ in paths]
     c, u = info['count_current_position'], info['uncount_current_position']
-    ctx.ob(rule, PI + '::count_current_position', 'entry(key).and_modify(+1).or_insert(1); push(count)',
-           c['step'] == 1 and c['insert'] == C(1) and c['pushes'] == 1 and c['pops'] == 0 and c['key'] == HASHF,
-           found={k: (show(v) if isinstance(v, tuple) else v) for k, v in c.items()}, expected='key = current_position_hash, +1, insert 1, one push')
-    ctx.ob(rule, PI + '::uncount_current_position', 'entry(key).and_modify(-1); pop()',
-           u['step'] == -1 and u['pops'] == 1 and u['pushes'] == 0 and u['key'] == HASHF,
-           found={k: (show(v) if isinstance(v, tuple) else v) for k, v in u.items()}, expected='key = current_position_hash, -1, one pop')
-    ctx.ob(rule, PI, 'count and uncount use the same map and key term', c['key'] == u['key'] and c['map'] == u['map'] and c['key'] is not None,
-           found=[show(c['key']) if c['key'] else None, show(u['key']) if u['key'] else None], expected='identical',
+    okc = bool(c) and all(len(p_['updates']) == 1 and p_['updates'][0]['key'] == hkey and p_['updates'][0]['present'] == 1 and p_['updates'][0]['absent'] == C(1)
+                          and p_['pushes'] == 1 and p_['pops'] == 0 for p_ in c)
+    ctx.ob(rule, PI + '::count_current_position', 'entry(key).and_modify(+1).or_insert(1); push(count)', okc,
+           found=summary(c), expected='on every path: key = current_position_hash, present: +1, absent: insert 1, one push')
+    oku = bool(u) and all(len(p_['updates']) == 1 and p_['updates'][0]['key'] == hkey and p_['updates'][0]['present'] in (-1, 'not-taken') and p_['updates'][0]['absent'] is None
+                          and p_['pops'] == 1 and p_['pushes'] == 0 for p_ in u) and any(p_['updates'] and p_['updates'][0]['present'] == -1 for p_ in u)
+    ctx.ob(rule, PI + '::uncount_current_position', 'entry(key).and_modify(-1); pop()', oku,
+           found=summary(u), expected='on every path: key = current_position_hash, present: -1, nothing inserted, one pop')
+    maps = {show(x['map']) for p_ in c + u for x in p_['updates']}
+    keys = {show(x['key']) for p_ in c + u for x in p_['updates']}
+    stacks = {x for p_ in c + u for x in p_['stack']}
+    ctx.ob(rule, PI, 'count and uncount use the same map and key term', len(maps) == 1 and len(keys) == 1 and len(stacks) == 1,
+           found={'maps': sorted(maps), 'keys': sorted(keys), 'stacks': sorted(stacks)}, expected='identical',
            why='unregistering must be the exact inverse of registering')
 
 
